@@ -3,6 +3,7 @@ package main
 import (
 	"fmt"
 	"os"
+	"runtime/pprof"
 )
 
 func usage() {
@@ -48,6 +49,11 @@ func main() {
 	case "replay":
 		os.Exit(replayMain(os.Args[2]))
 	case "job":
+		if p := os.Getenv("NEOSYM_CPUPROFILE"); p != "" {
+			f, _ := os.Create(p)
+			pprof.StartCPUProfile(f)
+			defer pprof.StopCPUProfile()
+		}
 		jobMain(os.Args[2:])
 	case "selfcheck":
 		os.Exit(selfcheck())
